@@ -64,7 +64,8 @@ Record header := mkH {
   h_version : N;                 (* CurrVersion *)
   h_cons    : option consdata;   (* None = Consensus does not decode *)
   h_val     : option uconvals;   (* header.Validator *)
-  h_cert    : option uconvals    (* header.Certificate *)
+  h_cert    : option uconvals;   (* header.Certificate *)
+  h_sig     : N                  (* header.Signature (identifier of the byte string) *)
 }.
 
 (* CaravelParams fields the verifier reads *)
@@ -76,17 +77,22 @@ Record oracles := mkO {
                                                        (gonum's binomial CDF when threshold > total) *)
   o_prio   : N -> Z -> N;                           (* computePriority hash j *)
   o_quorum : N -> bool -> N;                        (* uint32(float64(T) * (isPos ? 0.685 : 0.585)) *)
+  o_recover : N -> N -> option key;                 (* crypto.SigToPub(header hash, header.Signature): None = error *)
   o_bls    : list blskey -> payload -> N -> option bool   (* VerifyAggregatedOne pubs payload sig = nil;
                                                        None = the pairing code panics (signature or summed
                                                        key is the point at infinity) *)
 }.
 
-(* Variants of the code.  [asis] is /repo as it stands.  [fixed] is /repo with
-   fixes/C01_*.diff applied (thresholds of the protocol, membership test,
-   proposer needs a seat). *)
-Record variant := mkVar { thr_from_params : bool; check_member : bool; need_seat : bool; bls_guard : bool }.
-Definition asis  := mkVar false false false false.
-Definition fixed := mkVar true true true true.
+(* Variants of the code.  [fixed] is /repo as it stands now: after the repairs
+   360182b (thresholds of the protocol), ba51383 (membership test), ea6644d
+   (proposer needs a seat), f562ba5 (BLS neutral element) and 3eba51b
+   (VerifySideChainHeader checks the header signature).  [asis] is the verifier
+   BEFORE those repairs; it is kept only to state what was wrong
+   (C01_refuted_*, C01_holds_outside) and is no longer compared with any code. *)
+Record variant := mkVar { thr_from_params : bool; check_member : bool; need_seat : bool; bls_guard : bool;
+                          check_seal : bool }.
+Definition asis  := mkVar false false false false false.
+Definition fixed := mkVar true true true true true.
 
 Inductive verdict :=
 | Accept
@@ -98,6 +104,8 @@ Inductive verdict :=
 | EBlsMismatch       (* bls.ErrSigMismatch *)
 | EVersion           (* "YOUChain version of ... not exists" *)
 | ENoParents | EUnknownAncestor
+| EConsFormat        (* errInvalidConsensusDataFormat (verifySignature) *)
+| EInvalidSealer     (* errInvalidSealer (verifySignature) *)
 | EPanic             (* the verifier panics (the node stops) *)
 | Unmodelled.
 
@@ -311,8 +319,24 @@ Definition verify_main (O : oracles) (V : variant) (cp : cparams) (vers : list (
     end
   end end end end.
 
+(* verifySignature: the consensus data decodes, its signer is recoverable, and
+   the header signature recovers (over the header hash) to the same address *)
+Definition verify_signature (O : oracles) (h : header) : verdict :=
+  match h_cons h with
+  | None => EConsFormat
+  | Some cd =>
+    match cd_signer cd with
+    | None => EInvalidCD
+    | Some pk =>
+      match o_recover O (h_hash h) (h_sig h) with
+      | Some k => if k =? pk then Accept else EInvalidSealer
+      | None => EInvalidSealer
+      end
+    end
+  end.
+
 (* VerifySideChainHeader: parents non-empty; header.Number - parent.Number = 1;
-   header.ParentHash = parent.Hash() *)
+   header.ParentHash = parent.Hash(); verifySignature; verifyConsensusFieldMain *)
 Definition verify_side (O : oracles) (V : variant) (cp : cparams) (vers : list (N * cparams))
            (seedH : header) (lb : lookback) (certH : header) (certlb : lookback)
            (h : header) (parent : option header) : verdict :=
@@ -320,6 +344,11 @@ Definition verify_side (O : oracles) (V : variant) (cp : cparams) (vers : list (
   | None => ENoParents
   | Some p =>
     if negb ((h_number h =? h_number p + 1) && (h_parent h =? h_hash p)) then EUnknownAncestor
+    else if check_seal V then
+      match verify_signature O h with
+      | Accept => verify_main O V cp vers seedH lb certH certlb h
+      | e => e
+      end
     else verify_main O V cp vers seedH lb certH certlb h
   end.
 
@@ -332,17 +361,19 @@ Definition quorum_frac (T : N) (isPos : bool) : N := (T * (if isPos then 685 els
 Definition non_member_counted (O : oracles) (c : common) (step : N) (votes : list vote) : bool :=
   existsb (fun x => negb (is_member (snd x))) (counted_from O asis c step [] votes).
 
-(* true iff the input falls into one of the three listed weaknesses of the
+(* true iff the input falls into one of the four listed weaknesses of the
    unrepaired verifier: (a) a threshold written into the header (or into the
    certificate look-back header) differs from the protocol's, (b) the proposer
    or a counted voter is not an online chamber member, (c) the proposer claims
-   zero seats *)
+   zero seats, (d) the header signature does not recover to the signer of the
+   consensus data (side-chain path, found by C11) *)
 Definition finding_class (O : oracles) (cp : cparams) (vers : list (N * cparams))
            (seedH : header) (lb : lookback) (certH : header) (certlb : lookback) (h : header) : bool :=
   match h_cons seedH, h_cons h, h_val h with
   | Some seedCon, Some cd, Some uv =>
     negb (cd_pt cd =? cp_pt cp) || negb (cd_vt cd =? cp_vt cp)
     || (cd_sub cd =? 0)
+    || negb (match cd_signer cd, o_recover O (h_hash h) (h_sig h) with Some a, Some b => b =? a | _, _ => false end)
     || match cd_signer cd with
        | Some pk => match find_by_main (lb_vals lb) pk with Some val => negb (is_member val) | None => false end
        | None => false end
@@ -367,7 +398,8 @@ Record tables := mkT {
   t_seats  : list ((N * N * N * N) * option Z);   (* (hash, stake, threshold, total) -> j; None = panic *)
   t_prio   : list ((N * Z) * N);                  (* (hash, j) -> priority *)
   t_quorum : list ((N * bool) * N);
-  t_sigs   : list (N * list (blskey * payload))   (* sig id -> the signatures it aggregates *)
+  t_sigs   : list (N * list (blskey * payload));  (* sig id -> the signatures it aggregates *)
+  t_recover : list ((N * N) * key)                (* (header hash, header signature) -> recovered key; absent = error *)
 }.
 
 Definition eq5 (a b : N * N * N * N * N) : bool :=
@@ -408,6 +440,7 @@ Definition table_oracles (t : tables) : oracles :=
       (fun h stake thr total => match assoc eq4 (t_seats t) (h, stake, thr, total) with Some j => j | None => missing_seats end)
       (fun h j => match assoc (fun a b => (fst a =? fst b) && (snd a =? snd b)%Z) (t_prio t) (h, j) with Some p => p | None => missing_n end)
       (fun thr pos => match assoc (fun a b => (fst a =? fst b) && Bool.eqb (snd a) (snd b)) (t_quorum t) (thr, pos) with Some q => q | None => missing_n end)
+      (fun hh sg => assoc (fun a b => (fst a =? fst b) && (snd a =? snd b)) (t_recover t) (hh, sg))
       (fun pubs pl sig => match assoc N.eqb (t_sigs t) sig with
                           | Some comp =>
                             match pubs, comp with
@@ -420,6 +453,7 @@ Definition verdict_code (v : verdict) : N :=
   match v with
   | Accept => 0 | ELookBackCons => 1 | EInvalidCD => 2 | EIllegalProposer => 3 | EAggSig => 4
   | ERecover => 5 | EBlsMismatch => 6 | EVersion => 7 | ENoParents => 8 | EUnknownAncestor => 10 | EPanic => 11
+  | EConsFormat => 13 | EInvalidSealer => 14
   | Unmodelled => 99
   end.
 
